@@ -204,7 +204,9 @@ pub fn run(ctx: &Ctx) {
     let mut idx = 0usize;
     let mut total = 0usize;
     let mut ok = true;
-    'o: for entries in 1..=32u32 {
+    // 1..=32 completely; larger rings (several pages per mapping, where a wrong length is no longer
+    // hidden by page rounding) at selected sizes
+    'o: for entries in (1..=32u32).chain([33, 48, 64, 65, 100, 128, 200, 256, 512, 1024, 4096]) {
         for cfg in pr.cfgs(entries) {
             for used in [0u8, 5] {
                 let mine = idx % ctx.nworkers as usize == ctx.worker as usize;
@@ -222,6 +224,6 @@ pub fn run(ctx: &Ctx) {
         }
     }
     if ok {
-        ctx.note_exhaustive(format!("drop: ring sizes 1..=32 x {} accepted flag sets x {{fresh, used}} = {} rings (this worker: {})", pr.accepted.len(), idx, total));
+        ctx.note_exhaustive(format!("drop: ring sizes 1..=32 and 33,48,64,65,100,128,200,256,512,1024,4096 x {} accepted flag sets x {{fresh, used}} = {} rings (this worker: {})", pr.accepted.len(), idx, total));
     }
 }
